@@ -46,20 +46,10 @@ def key_agreement(ctx, rule, fnpath, field, inst, need_source_guard):
     khid = e4.local_hid(ins["args"][0])
     if khid is None:
         raise Unestablished("inserted key is not a plain local: " + pretty(ins["args"][0]), c.loc(fn, ins))
-    # diverging guards: `if <cond> { panic }` chains at statement level before the insert
-    guards = []
-    def collect(n):
-        if n is None:
-            return
-        if n.get("k") == "if":
-            th_out = e4.outcomes(c, n["th"], lambda x: False)
-            if not th_out:  # then-branch always panics
-                guards.append(n["c"])
-            collect(n["el"])
-    for s in top_stmts_of(fn["body"]):
-        if s is ins or any(x is ins for x in walk(s)):
-            break
-        collect(strip(s) if s.get("k") != "if" else s)
+    # conditions known false when the insert is reached (panicking guard clauses before it, enclosing branches)
+    pcs = e4.path_conditions(c, fn["body"], ins) or []
+    pcs = [it for it in pcs if it["kind"] == "if" or it.get("panics")]
+    guards = [a for (a, pol, _) in e4.atoms_of(pcs) if not pol]
     checked = []
     for g in guards:
         for x in walk(g):
